@@ -21,8 +21,12 @@ submission watermarks parse; `Live c n` ⊇ `Inv c n` — the production invaria
 `height + 1` will validate); `Op`/`runOps` — histories of steps and crashes; `Adv c d d'` — image `d'` has the
 blocks of `d` up to `d`'s height and a height between `d.height` and `d.height + 1`.
 
-The crash-recovery part of the property holds **in full** (`C04_recovers`: every history, every crash point, no
-exclusion).  The cache-file part holds **in full** too since the repair `fix: replace the cache files atomically when
+The crash-recovery part of the property holds for every history and every crash point, no cut excluded
+(`C04_recovers`).  Hypotheses, all explicit in `C04_recovers_full`: `1 ≤ initialHeight` for the safety half
+(`C04_recovers_safe`, `C04_blocks_are_their_batches`); for the final liveness clause also `signerAddr = proposerAddr`
+(the node holds the genesis proposer's key), `proposerAddr ≠ []`, `maxPending = 0` (with a pending limit the node may
+refuse to produce: C08).  The execution layer is the stateless double `execRoot`/`ExecResp` (same root when asked
+again; an executor that answers a retried call differently, or that crashed after executing, is outside the model).  The cache-file part holds **in full** too since the repair `fix: replace the cache files atomically when
 saving them to disk` (/repo 998b465): `C04_cache_full`, a theorem about the model at the facts regenerated from the
 compiled `pkg/cache` (`CacheDir.tree`); the model of the code before the repair is refuted as before
 (`C04_cache_nonatomic_fails`).
@@ -161,7 +165,7 @@ lost in a crash before it was durable has no say: the height is built again from
 **every** block stored above the initial height in every crash image of the last operation (in particular the block
 waiting at `height + 1`), and the block at the initial height is the empty genesis block. -/
 theorem C04_blocks_are_their_batches (c : Cfg) (hpos : 1 ≤ c.initialHeight) (ops : List Op) :
-    ∃ σ (f : Nat → Nat), runOps c (initSt c) ops = .ok σ ∧
+    ∃ (σ : RunSt) (f : Nat → Nat), runOps c (initSt c) ops = .ok σ ∧
       (∀ h, c.initialHeight < h → h ≤ σ.node.store.height →
         ∃ b txs ts bd e, σ.node.store.getBlock h = some b ∧
           ops[f h]? = some (.step (.batch txs ts bd) e) ∧ b.data.txs = txs ∧ b.sh.hdr.time = ts) ∧
@@ -355,6 +359,36 @@ example : seqPoints 4 2 false = [.after, .after, .during false, .before] := by d
 example : loadOK { saveAtomic := true, loadIgnoresTmp := false }
     (crashImages { saveAtomic := true, loadIgnoresTmp := false } [.complete] [.during false]) = false := by decide
 
+/-! ### stale cache files: a crash that is *not* during a save
+
+A crash outside `SaveCache` leaves the cache directory as the **last clean stop** left it: files of an older
+generation than the store image (or none, or the mixed old/new set a cut save left earlier).  What the node reads
+from them: `NewManager` → `LoadCache` gob-decodes the eight files, each on its own (no cross-check between files, none
+against the store), and fails iff one does not decode.  The contents — cached items of the sync loop, the *seen* sets,
+the DA-included marks — are never read by `publishBlockInternal` (it only *adds* the new header hash to the seen set)
+nor by `getInitialState`; on an aggregator they are read by the DA includer alone (property C07).  So for the
+producer state of this model (`Node`) a restart on stale files is the restart `start` of the store image, whatever
+they contain: `startWithCaches` needs `loadOK` only, and every complete file of any generation decodes.  The stream
+runs every `crash` on the files of the last clean stop (`crash-restarts-on-stale-cache-files`) and compares. -/
+
+theorem loadOK_untouched (f : Facts) (olds : List OldFile) :
+    loadOK f (crashImages f olds (olds.map fun _ => SavePoint.before)) = true := by
+  induction olds with
+  | nil => simp [crashImages, loadOK]
+  | cons o os ih =>
+    simp only [crashImages, loadOK, List.map_cons, List.zipWith_cons_cons, List.all_cons, Bool.and_eq_true] at ih ⊢
+    refine ⟨?_, ih⟩
+    cases o <;> simp [crashImage, OldFile.file]
+
+/-- **a crash outside a save restarts on whatever older generation of cache files is there** — for any `pkg/cache`
+(atomic or not): the files are complete files of earlier saves or absent, `LoadCache` accepts them, and the restart is
+`start` on the store image -/
+theorem C04_cache_stale_generation (f : Facts) {c : Cfg} {d : Store} (hd : DInv c d) (olds : List OldFile) :
+    ∃ n ws, restartAfterSaveCrash f c d olds (olds.map fun _ => .before) = .ok (n, ws) ∧ start c d = .ok (n, ws) ∧
+      Inv c n := by
+  obtain ⟨n, ws, hst, hi, _⟩ := start_of_dinv hd
+  exact ⟨n, ws, startWithCaches_of_loadOK (loadOK_untouched f olds) hst, hst, hi.toInv⟩
+
 /-! ## non-vacuity -/
 
 /-- a history with a crash after the early save of the third block, a crash during the restart, a further step, a
@@ -367,6 +401,16 @@ def gOps : List Op := wOps ++ [.crash 2, .crash 0, .step (.batch [[5]] 600 []) .
 example : (match runOps wCfg (initSt wCfg) gOps with
      | .ok σ => some (σ.node.store.height, σ.node.lastState.lastHeight)
      | .error _ => none) = some (5, 5) := by decide +kernel
+
+/-- `C04_blocks_are_their_batches` at work: block 3 is built from `[[7]]`@400 but the crash keeps only the batch
+cursor (block lost), so height 3 is built again from `[[8]]`@450, early-saved, execution fails, the node crashes and
+restarts with that block waiting, and the answer `[[9]]`@500 commits it: block 3 holds `[[8]]`@450 (position 4) -/
+def bOps : List Op := wOps.take 2 ++ [.step (.batch [[7]] 400 []) .ok, .crash 1, .step (.batch [[8]] 450 []) .fail,
+  .crash 9, .step (.batch [[9]] 500 []) .ok]
+
+example : (match runOps wCfg (initSt wCfg) bOps with
+     | .ok σ => (σ.node.store.getBlock 3).map (fun b => (σ.node.store.height, b.data.txs, b.sh.hdr.time))
+     | .error _ => none) = some (3, [[8]], 450) := by decide +kernel
 
 /-- a concrete node with two committed blocks (the witness before its third step) -/
 theorem two_blocks : ∃ σ, runOps wCfg (initSt wCfg) (wOps.take 2) = .ok σ ∧ Good wCfg σ ∧
